@@ -3,6 +3,7 @@ def run(tier, a=None):
     tg = ['SO2t', 'SE2t', 'SO3t']
     specs = [{'src': 'h_c18.cpp', 'defs': ['TAG=' + t], 'filter': 'c18_(refl|negq).*', 'maxpaths': 256} for t in tg + ([] if tier == 'quick' else ['SE3t'])]
     specs += [{'src': 'h_c18.cpp', 'defs': ['TAG=SO2t'], 'filter': 'c18_(sym|near|far|tangent|tangent_rel).*', 'maxpaths': 512}]
+    specs += [{'src': 'h_c18.cpp', 'defs': ['TAG=R3t'], 'filter': 'c18_far_large.*', 'maxpaths': 512}]
     if tier != 'quick':
         specs += [{'src': 'h_c18.cpp', 'defs': ['TAG=' + t], 'filter': 'c18_(sym|near|far|tangent|tangent_rel).*', 'maxpaths': 2048} for t in ('SE2t', 'R3t')]
     import props.common as pc
@@ -10,4 +11,4 @@ def run(tier, a=None):
     pc.opts = lambda tier, a=None: dict(_o(tier, a), approx_ok=False, structural=True)
     return simple('C18', tier, a, specs,
         'isApprox / operator== return booleans, concrete on every enumerated path; a path on which the returned value differs from the expected one must be infeasible (solver verdict on the recorded path condition). Claims: X.isApprox(X,eps) and X==X for every symbolic unit X and eps>0; the same for the two coefficient vectors q,-q of one transformation; symmetry; isApprox(X,X(+)d,eps) holds when every |d_i|<=eps/2 and fails when some d_i>=2eps; tangents: reflexive, symmetric, absolute test against zero equals max|a_i|<=eps, relative test equals |a-b|^2<=eps^2 min(|a|^2,|b|^2) when both norms are >= eps.',
-        ['exact real arithmetic: the rounding residual of X(-)X at large coordinates (known SE2/SGal3 issue, DESIGN section 5 item 10) is a COND question and outside this EXACT check', 'near/far: X at the exact rational point K0, eps<=0.01, |d_i|<=0.5', 'reflexivity / q vs -q: SO2, SE2, SO3 (+SE3 thorough); symmetry, near/far threshold and tangent relations: SO2 (quick), +SE2, R3 (thorough) -- Eigen isZero/isApprox branch per coefficient, so path counts grow as 2^DoF'])
+        ['exact real arithmetic: the rounding residual of X(-)X at large coordinates (known SE2/SGal3 issue, DESIGN section 5 item 10) is a COND question and outside this EXACT check', 'near/far: X at the exact rational point K0, eps<=0.01, |d_i|<=0.5', 'reflexivity / q vs -q: SO2, SE2, SO3 (+SE3 thorough); symmetry, near/far threshold and tangent relations: SO2 (quick); far threshold at coordinates 1e3..1e9: R3, +SE2, R3 (thorough) -- Eigen isZero/isApprox branch per coefficient, so path counts grow as 2^DoF'])
